@@ -1344,36 +1344,64 @@ TranscodeNumber(
 
 
 
-static const char* const    thePrintfStrings[] =
+// The maximum number of characters sprintf can produce for a double in
+// fixed notation: sign, 309 integral digits, the decimal point, and up to
+// MAX_FRACTION_DIGITS fractional digits.
+const int       MAX_FRACTION_DIGITS = 340;
+
+const size_t    MAX_DOUBLE_CHARACTERS = 1 + 309 + 1 + MAX_FRACTION_DIGITS;
+
+
+
+// Test if a double can be converted to XMLInt64 without loss.
+static bool
+isRepresentableAsInt64(double   theValue)
 {
-    "%.10f",
-    "%.11f",
-    "%.12f",
-    "%.13f",
-    "%.14f",
-    "%.15f",
-    "%.16f",
-    "%.17f",
-    "%.18f",
-    "%.19f",
-    "%.20f",
-    "%.21f",
-    "%.22f",
-    "%.23f",
-    "%.24f",
-    "%.25f",
-    "%.26f",
-    "%.27f",
-    "%.28f",
-    "%.29f",
-    "%.30f",
-    "%.31f",
-    "%.32f",
-    "%.33f",
-    "%.34f",
-    "%.35f",
-    0
-};
+    // 2^63 is exactly representable as a double.  Anything outside
+    // of this range cannot be cast without undefined behavior.
+    return theValue >= -9223372036854775808.0 &&
+           theValue < 9223372036854775808.0 &&
+           static_cast<double>(static_cast<XMLInt64>(theValue)) == theValue;
+}
+
+
+
+// Write a finite, non-zero double to a buffer in fixed notation, using the
+// smallest number of fractional digits (starting with 10) that will convert
+// back to the same value.  The buffer must have room for at least
+// MAX_DOUBLE_CHARACTERS + 1 characters.
+static int
+doubleToFixedNotation(
+            double  theValue,
+            char*   theBuffer)
+{
+    using std::sprintf;
+    using std::atof;
+
+    int     thePrecision = 10;
+
+    const double    theAbsoluteValue = std::fabs(theValue);
+
+    if (theAbsoluteValue < 1.0e-10)
+    {
+        // There's no point in trying fewer digits than
+        // there are leading zeros.
+        thePrecision = static_cast<int>(-std::floor(std::log10(theAbsoluteValue)));
+    }
+
+    int     theCharsWritten = 0;
+
+    do
+    {
+        theCharsWritten = sprintf(theBuffer, "%.*f", thePrecision, theValue);
+        assert(theCharsWritten != 0);
+
+        ++thePrecision;
+    }
+    while(atof(theBuffer) != theValue && thePrecision <= MAX_FRACTION_DIGITS);
+
+    return theCharsWritten;
+}
 
 
 
@@ -1433,30 +1461,17 @@ DOMStringHelper::NumberToCharacters(
             theZeroString,
             sizeof(theZeroString) / sizeof(theZeroString[0]) - 1);
     }
-    else if (static_cast<XMLInt64>(theValue) == theValue)
+    else if (isRepresentableAsInt64(theValue) == true)
     {
         NumberToCharacters(static_cast<XMLInt64>(theValue), formatterListener, function);
     }
     else
     {
-        char            theBuffer[MAX_PRINTF_DIGITS + 1];
+        char            theBuffer[MAX_DOUBLE_CHARACTERS + 1];
 
-        using std::sprintf;
-        using std::atof;
         using std::isdigit;
 
-        const char* const *     thePrintfString = thePrintfStrings;
-
-        int     theCharsWritten = 0;
-
-        do
-        {
-            theCharsWritten = sprintf(theBuffer, *thePrintfString, theValue);
-            assert(theCharsWritten != 0);
-
-            ++thePrintfString;
-        }
-        while(atof(theBuffer) != theValue && *thePrintfString != 0);
+        int     theCharsWritten = doubleToFixedNotation(theValue, theBuffer);
 
         // First, cleanup the output to conform to the XPath standard,
         // which says no trailing '0's for the decimal portion.
@@ -1503,7 +1518,7 @@ DOMStringHelper::NumberToCharacters(
             }
         }
 
-        XalanDOMChar    theResult[MAX_PRINTF_DIGITS + 1];
+        XalanDOMChar    theResult[MAX_DOUBLE_CHARACTERS + 1];
 
         TranscodeNumber(
                 theBuffer,
@@ -1733,30 +1748,17 @@ NumberToDOMString(
             theZeroString,
             sizeof(theZeroString) / sizeof(theZeroString[0]) - 1);
     }
-    else if (static_cast<XMLInt64>(theValue) == theValue)
+    else if (isRepresentableAsInt64(theValue) == true)
     {
         NumberToDOMString(static_cast<XMLInt64>(theValue), theResult);
     }
     else
     {
-        char            theBuffer[MAX_PRINTF_DIGITS + 1];
+        char            theBuffer[MAX_DOUBLE_CHARACTERS + 1];
 
-        using std::sprintf;
-        using std::atof;
         using std::isdigit;
 
-        const char* const *     thePrintfString = thePrintfStrings;
-
-        int     theCharsWritten = 0;
-
-        do
-        {
-            theCharsWritten = sprintf(theBuffer, *thePrintfString, theValue);
-            assert(theCharsWritten != 0);
-
-            ++thePrintfString;
-        }
-        while(atof(theBuffer) != theValue && *thePrintfString != 0);
+        int     theCharsWritten = doubleToFixedNotation(theValue, theBuffer);
 
         // First, cleanup the output to conform to the XPath standard,
         // which says no trailing '0's for the decimal portion.
